@@ -178,9 +178,21 @@ def _rename_loops(loops, guards, term):
             # range(a, b) -> range(0, b - a), the loop variable becomes e + a
             shift = it[1]
             it = ("range", K(0), canon_arith(app("-", it[2], it[1])))
+        pairs_of = None
+        if isinstance(it, tuple) and len(it) == 5 and it[0] == "mcall" and it[2] == "items" and not it[3] and not it[4]:
+            # for k, v in D.items(): the key loop over D with v = D[k] - when the pair is only ever taken apart
+            e_ = ("elem", l)
+            users = [x for src in (list(guards) + [term] + [o[3] for o in loops if o is not l]) for x in subterms(src)
+                     if isinstance(x, tuple) and e_ in x[1:]]
+            if all(x[0] == "idx" and x[1] == e_ and x[2] in (K(0), K(1)) for x in users):
+                pairs_of = it[1]
+                it = it[1]
         nl = ("loop", pos, "", norm(it))
         if shift is not None:
             mapping[("elem", l)] = app("+", ("elem", nl), shift)
+        if pairs_of is not None:
+            mapping[("idx", ("elem", l), K(0))] = ("elem", nl)
+            mapping[("idx", ("elem", l), K(1))] = ("idx", norm(pairs_of), ("elem", nl))
         mapping[l] = nl
         new_loops.append(nl)
 
@@ -595,3 +607,99 @@ def rejects_an_element(ev, list_term, attr: str) -> bool:
                     and (any(attr in show(c) for c in x[2]) or attr in show(x[3])):
                 return True
     return False
+
+
+# ---------------------------------------------------------------------------
+# lengths of sequences known from the source
+# ---------------------------------------------------------------------------
+def same_int(a, b) -> bool:
+    """a and b denote the same integer (difference of the linear forms is the constant 0)"""
+    from .decide import lin
+
+    def known_len(t):
+        if isinstance(t, tuple) and len(t) == 4 and t[0] == "call" and t[1] == "len" and len(t[2]) == 1:
+            n_ = length_of(t[2][0])
+            if n_ is not None:
+                return rewrite(n_, known_len)
+        return None
+    a, b = rewrite(norm(a), known_len), rewrite(norm(b), known_len)
+    d = lin(norm(a)).add(lin(norm(b)), -1)
+    return d.is_const() and d.const == 0
+
+
+def list_length(t):
+    """length of a list / tuple term whose items are written in the source: plain items count one, an unguarded comprehension
+    over `range(a, b)` counts b - a (assumed non-negative); None when not known"""
+    if not (isinstance(t, tuple) and t and t[0] in ("list", "tuple")):
+        return None
+    total = K(0)
+    for it in t[1]:
+        if isinstance(it, tuple) and it and it[0] == "each":
+            if len(it[1]) != 1 or it[2]:
+                return None
+            n_ = length_of(it[1][0][3])
+            if n_ is None:
+                return None
+            total = add(total, n_)
+        else:
+            total = add(total, K(1))
+    return total
+
+
+_LENGTH_LEMMAS = {}
+
+
+def length_of(it, lemmas=None):
+    """term for the number of elements of an iterable term, or None: range(a, b) -> b - a; zip of equally long sequences;
+    enumerate(x); a list written in the source; a call of a function for which a length lemma was decided (lemmas:
+    {callee name: index of the argument that is the length})"""
+    from .decide import canon
+    lemmas = _LENGTH_LEMMAS if lemmas is None else lemmas
+    if not isinstance(it, tuple) or not it:
+        return None
+    if it[0] == "range" and len(it) == 3:
+        return it[2] if it[1] == K(0) else sub(it[2], it[1])
+    if it[0] in ("list", "tuple"):
+        return list_length(it)
+    if it[0] == "call":
+        name = it[1].split(".")[-1]
+        if name == "enumerate" and it[2]:
+            return length_of(it[2][0], lemmas)
+        if name in ("list", "tuple", "reversed", "sorted") and len(it[2]) == 1:
+            return length_of(it[2][0], lemmas)
+        if name == "zip" and it[2]:
+            ls = [length_of(a, lemmas) for a in it[2]]
+            if all(l is not None for l in ls) and all(same_int(l, ls[0]) for l in ls):
+                return ls[0]
+            return None
+        if name in lemmas and len(it[2]) > lemmas[name]:
+            return it[2][lemmas[name]]
+    return None
+
+
+def decide_length_lemma(ctx, rule, module, fname, arg_index) -> bool:
+    """every normal return of module.fname(.., n, ..) is a sequence of n elements: its written length is n, or the function
+    itself raises when `len(<returned list>) != n`.  Registers the lemma for length_of when it holds."""
+    from .decide import canon
+    fn = ctx.project.function(module, fname)
+    n_ = S(fn.args.args[arg_index].arg)
+    runs = runs_of(ctx, Entry("func", module=module, name=fname))
+    fails_closed(ctx, rule, runs)
+    ok_all, seen = True, 0
+    for r in runs:
+        if r.rejected:
+            continue
+        seen += 1
+        rv = r.retval
+        ln = list_length(rv) if isinstance(rv, tuple) else None
+        ok = ln is not None and same_int(ln, n_)
+        if not ok and isinstance(rv, tuple):
+            want = norm(ne(("call", "len", (rv,), ()), n_))
+            ok = any(norm(g) == want for ev in r.events_of("raise") for g in ev.guards)
+        ok_all = ok_all and ok
+    if ok_all and seen:
+        _LENGTH_LEMMAS[fname] = arg_index
+        ctx.ok(rule, f"lemma: {module}.{fname} returns {show(n_)} elements on every normal return ({seen} paths)")
+    else:
+        _LENGTH_LEMMAS.pop(fname, None)
+    return ok_all and bool(seen)
